@@ -203,9 +203,19 @@ reg(Prop(
     nontrivial_key="overflow_scenarios", assumptions=COMMON_ASSUME + ["H2 only presets counter combinations satisfying archetype_version - 1 == sum(slot_version - 1), i.e. states a real history reaches"],
     design_ref="DESIGN.md section 4, C08"))
 
+def plan_c09(tier, seed):
+    jobs = history_plan("direct", tier, seed)
+    # direct handles next to the 2^32 boundary of the archetype version (H2 presets), in the default
+    # and in the wrapping_version configuration: a removal must still invalidate them
+    k = 1 if tier == "quick" else 6
+    for feats in ((), ("wrapping_version",)):
+        jobs += shards(Config("dbg", feats), "overflow", "main", 2, 2500 * k, seed + 20, timeout=3000)
+        jobs += shards(Config("rel", feats), "overflow", "small", 2, 5000 * k, seed + 21, timeout=3000)
+    return jobs
+
+
 reg(Prop(
-    "C09", "exploration",
-    lambda tier, seed: history_plan("direct", tier, seed),
+    "C09", "exploration", plan_c09,
     accept=["C09"],
     floors={"direct|no-removal|no-creation|accepted": 10000, "direct|removal-since|creation-since|rejected": 10000, "direct|no-removal|creation-since|accepted": 1000,
             "direct_obtained|ecs_iter_destroy!": 500, "direct_obtained|World::to_direct": 1000, "direct_obtained|Archetype::to_direct": 1000, "direct_obtained|ecs_find!(wild params)": 1000,
